@@ -123,7 +123,8 @@ class Report:
         os.makedirs(EVIDENCE_DIR, exist_ok=True)
         with open(os.path.join(EVIDENCE_DIR, f"{self.prop}.json"), "w") as fh:
             json.dump(ev, fh, indent=1, default=str)
-        code = 2 if undec else (1 if viol else 0)
+        # a positive witness outranks 'could not decide' elsewhere: report the violation (exit 1), still printing the ANALYSIS-ERROR lines
+        code = 1 if viol else (2 if undec else 0)
         if not self.quiet:
             print(f"[{self.prop}] tier={self.tier} obligations={n_obl} hold={discharged} violations={len(viol)} "
                   f"known={len(known_hit)} undecided={len(undec)} units={len(self.units)} wall={ev['wall_s']}s")
